@@ -89,3 +89,65 @@ Theorem model_positions_pass_spec : forall b k, reachable_b b = true ->
   filter (fun p => is_sched (tc b + p)) (map N.of_nat (seq 1 k)).
 Proof. exact Proofs.C17.positions_closed_form. Qed.
 Print Assumptions model_positions_pass_spec.
+
+(* ================= ONE long-lived Ticker shared by many messages =================
+   [rrun h] is the model of ticker.go's handler table (ids from the uint64 counter
+   nextHandlerId, Go map assignment, lazy deletion of handlers whose context is done) under a
+   history [h] of registrations (ScheduleRetransmissions of a new message), cancellations and
+   ticks, observed in drained states.  [log_of (msgs st) m] = the tick numbers (counted over
+   the ticker's whole life) at which message m was retransmitted. *)
+
+(* For EVERY history: each message is retransmitted exactly at the positions of its OWN
+   schedule counted from its OWN registration, up to its OWN first cancellation and never
+   after it — the right-hand side mentions nothing else of the history (other messages'
+   registrations and cancellations before, between and after are irrelevant). *)
+Theorem registry_each_message_keeps_its_own_schedule :
+  forall (pre : list rop) (m : N) (s : strategy) (post : list rop),
+    NoDup (scheduled (pre ++ RSchedule m s :: post)) ->
+    N.of_nat (length (scheduled (pre ++ RSchedule m s :: post))) < w64 ->
+    log_of (msgs (rrun (pre ++ RSchedule m s :: post))) m =
+    Some (map (N.add (ticks_in pre)) (fst (fire_positions s (live_len m post) 1))).
+Proof. exact Proofs.C17.registry_exact. Qed.
+Print Assumptions registry_each_message_keeps_its_own_schedule.
+
+(* In closed form: standard = every tick since its registration; backoff = its own ticks
+   1, 3, 6, 11, 20, ... ([is_sched], see is_sched_iff / backoff_ticks), while live. *)
+Theorem registry_closed_form_schedules :
+  forall (pre : list rop) (m : N) (s : strategy) (post : list rop) (sel : N -> bool),
+    NoDup (scheduled (pre ++ RSchedule m s :: post)) ->
+    N.of_nat (length (scheduled (pre ++ RSchedule m s :: post))) < w64 ->
+    sel_of s = Some sel ->
+    (match s with Std => 0 | Back b => tc b end) + N.of_nat (live_len m post) < 2 ^ 62 ->
+    log_of (msgs (rrun (pre ++ RSchedule m s :: post))) m =
+    Some (map (fun p => ticks_in pre + p)
+              (filter sel (map N.of_nat (seq 1 (live_len m post))))).
+Proof. exact Proofs.C17.registry_closed_form. Qed.
+Print Assumptions registry_closed_form_schedules.
+
+(* The handler table implements the table-free reference in which a tick reaches exactly the
+   messages whose context is live (handler ids are never reused, so a registration never
+   overwrites a live handler; every live message has exactly one handler). *)
+Theorem registry_refines_independent_messages :
+  forall h : list rop,
+    NoDup (scheduled h) -> N.of_nat (length (scheduled h)) < w64 ->
+    (msgs (rrun h), tickno (rrun h)) = frun h.
+Proof. intros h H1 H2. exact (proj2 (Proofs.C17.registry_refines h H1 H2)). Qed.
+Print Assumptions registry_refines_independent_messages.
+
+(* ... and in the reference a message's record is a function of the history as that message
+   sees it (all ticks, its own registration and cancellations). *)
+Theorem reference_messages_are_independent :
+  forall (m : N) (h : list rop),
+    filter (fun r => m_id r =? m) (fst (frun h)) = fst (frun (only m h)).
+Proof. intros m h. exact (proj1 (Proofs.C17.flat_projection m h [] 0)). Qed.
+Print Assumptions reference_messages_are_independent.
+
+(* executable form: an accepted observation gives every registered message its closed-form log *)
+Theorem registry_spec_sound :
+  forall (h : list rop) (logs : list (N * list N)), reg_spec [] h logs = true ->
+  forall pre m s post, h = pre ++ RSchedule m s :: post ->
+  exists l, In (m, l) logs /\
+    forall sel, sel_of s = Some sel ->
+      l = map (fun p => ticks_in pre + p) (filter sel (map N.of_nat (seq 1 (live_len m post)))).
+Proof. intros h logs H pre m s post E. exact (Proofs.C17.reg_spec_sound h [] logs H pre m s post E). Qed.
+Print Assumptions registry_spec_sound.
